@@ -637,8 +637,76 @@ def _literal_seq(fnode, it):
     return None
 
 
+class _AnyAll(ast.NodeTransformer):
+    """any(<test of x> for x in (a, b, c))  ->  test(a) or test(b) or
+    test(c)   (all -> and), when the sequence is a literal of simple
+    expressions and the element expression is a truth value (comparison,
+    not, isinstance, and/or of those), so that the value is the same bool."""
+    n = 0
+
+    def _boolish(self, e):
+        if isinstance(e, ast.Compare):
+            return True
+        if isinstance(e, ast.UnaryOp) and isinstance(e.op, ast.Not):
+            return True
+        if isinstance(e, ast.BoolOp):
+            return all(self._boolish(v) for v in e.values)
+        if isinstance(e, ast.Call) and isinstance(e.func, ast.Name) and \
+                e.func.id in ('isinstance', 'bool', 'callable'):
+            return True
+        return False
+
+    def visit_Call(self, node):
+        self.generic_visit(node)
+        if not (isinstance(node.func, ast.Name) and
+                node.func.id in ('any', 'all') and len(node.args) == 1 and
+                not node.keywords and
+                isinstance(node.args[0], (ast.GeneratorExp, ast.ListComp))):
+            return node
+        g = node.args[0]
+        if len(g.generators) != 1:
+            return node
+        c = g.generators[0]
+        if c.ifs or c.is_async or not isinstance(c.iter, (ast.Tuple,
+                                                          ast.List)):
+            return node
+        if not self._boolish(g.elt) or len(c.iter.elts) > 8:
+            return node
+
+        def simple(e):
+            return isinstance(e, (ast.Name, ast.Attribute, ast.Constant))
+        if isinstance(c.target, ast.Name):
+            if not all(simple(e) for e in c.iter.elts):
+                return node
+            rows = [{c.target.id: e} for e in c.iter.elts]
+        elif isinstance(c.target, ast.Tuple) and all(
+                isinstance(x, ast.Name) for x in c.target.elts):
+            rows = []
+            for e in c.iter.elts:
+                if not (isinstance(e, ast.Tuple) and
+                        len(e.elts) == len(c.target.elts) and
+                        all(simple(x) for x in e.elts)):
+                    return node
+                rows.append(dict(zip([x.id for x in c.target.elts],
+                                     e.elts)))
+        else:
+            return node
+        vals = [_Subst(r, {}).visit(copy.deepcopy(g.elt)) for r in rows]
+        _AnyAll.n += 1
+        if not vals:
+            return ast.copy_location(
+                ast.Constant(value=node.func.id == 'all'), node)
+        if len(vals) == 1:
+            return ast.copy_location(vals[0], node)
+        op = ast.Or() if node.func.id == 'any' else ast.And()
+        return ast.copy_location(ast.BoolOp(op=op, values=vals), node)
+
+
 def unroll_callable_loops(trees):
     n_unrolled = 0
+    for tree in trees.values():
+        _AnyAll().visit(tree)
+        ast.fix_missing_locations(tree)
     for tree in trees.values():
         for fnode in [n for n in ast.walk(tree)
                       if isinstance(n, (ast.FunctionDef,
